@@ -744,6 +744,7 @@ func (vc *VC) execReturn(x *ssa.Return, st *State) {
 	}
 	o := vc.oblige("vacuity.return", "", reach, "true", "return is reachable under the contract assumptions")
 	o.expect = "sat"
+	nob := len(vc.obligations)
 	for i, c := range vc.spec.Ensures {
 		f := env.evalBool(c.E)
 		env.flushSide(reach)
@@ -756,6 +757,11 @@ func (vc *VC) execReturn(x *ssa.Return, st *State) {
 		vc.oblige("panics.return", "", reach, "(not "+f+")", "normal return implies !("+vc.spec.Panics.Src+")")
 	}
 	vc.frameObligations(st, reach)
+	snap := st.clone()
+	for _, ob := range vc.obligations[nob:] {
+		ob.retInstr = x
+		ob.st = snap
+	}
 }
 
 func (vc *VC) execPanic(x *ssa.Panic, st *State) {
